@@ -33,6 +33,11 @@ def run(ctx):
     ctx.rule("OPTIONS", "N-1 cases are evaluated with pf_options_nminus1 (filtered from itself), the base case with pf_options; cases of "
                         "elements that are out of service are skipped")
     cg.rule_options(ctx, "OPTIONS", fi)
+    ctx.rule("SETUP", "a recycle option of the caller is forced off; cause_element is an object array (no truncation of type names); the "
+                      "write_to_net loop writes every monitored table; cause_index is only compared with the index of the outaged table")
+    cg.rule_setup(ctx, "SETUP", fi)
+    if cg.rule_cause_index(ctx, "SETUP", fu) < 1:
+        ctx.fail("_update_contingency_results: comparison with cause_index not found")
 
 
 def variants(repo):
@@ -41,6 +46,10 @@ def variants(repo):
     return [
         V("n-1 options filtered from the base-case options", p, replace_once("pf_options_nminus1 = {key: val for key, val in pf_options_nminus1.items() if key not in", "pf_options_nminus1 = {key: val for key, val in pf_options.items() if key not in"), "OPTIONS"),
         V("outage evaluated with the base-case options", p, in_function("run_contingency", replace_once("contingency_evaluation_function(net, **pf_options_nminus1, **kwargs)", "contingency_evaluation_function(net, **pf_options, **kwargs)")), "OPTIONS"),
+        V("recycle only defaulted", p, lambda s: s.replace('    if "recycle" in kwargs:\n        kwargs["recycle"] = False', '    kwargs.setdefault("recycle", False)', 1), "recycle-off"),
+        V("fixed-width cause names", p, in_function("run_contingency", replace_once('"cause_element": np.empty_like(net[element].index.values, dtype=object)', '"cause_element": np.zeros_like(net[element].index.values, dtype="U5")')), "cause-element-dtype"),
+        V("tables without outage not written", p, in_function("run_contingency", replace_once('            index = element_results["index"]\n', '            if element != "bus" and element not in nminus1_cases:\n                continue\n            index = element_results["index"]\n')), "write-all-tables"),
+        V("overload flag located in the affected table", p, in_function("_update_contingency_results", replace_once('contingency_results[cause_element]["index"] == cause_index] = True', 'contingency_results[element]["index"] == cause_index] = True')), "cause-index"),
         V("restore on normal path only", p, in_function("run_contingency", lambda s: s.replace("            finally:\n                net[element].at[i, 'in_service'] = True\n", "            net[element].at[i, 'in_service'] = True\n", 1)), "RESTORE"),
         V("n0 before n1", p, in_function("run_contingency", lambda s: s.replace("    for element, val in nminus1_cases.items():\n", "    contingency_evaluation_function(net, **pf_options, **kwargs)\n    _update_contingency_results(net, contingency_results, result_variables, nminus1=False)\n    for element, val in nminus1_cases.items():\n", 1).replace("    contingency_evaluation_function(net, **pf_options, **kwargs)\n    _update_contingency_results(net, contingency_results, result_variables, nminus1=False)\n\n    if write_to_net", "\n    if write_to_net", 1)), "ORDER"),
         V("cause compares with nan", p, in_function("_update_contingency_results", replace_once("(val > np.nan_to_num(running_max, nan=-np.inf))", "(val > running_max)")), "cause-nan-safe"),
